@@ -670,7 +670,7 @@ func (s *c10State) readCurrent() {
 // finding.
 func (s *c10State) viol(class, sig, format string, args ...interface{}) {
 	if s.postCrash {
-		s.r.Finding(class, "C10:stale-log-tail-after-crash", "operating on a tree recovered from a crash: "+format, args...)
+		s.r.Finding(class, "C03:stale-index-tail-after-repeated-crash", "operating on a tree recovered from a crash: "+format, args...)
 		s.r.EndRun()
 	}
 	s.r.Violation(class, sig, format, args...)
